@@ -89,6 +89,20 @@ var ifaceInitEntrySpec = &decideSpec{
 	trace:  ifaceInitTrace,
 }
 
+// PackageConfig.Initialize: one iteration of the loop over the listed interfaces (trace mode)
+var pkgInitEntrySpec = &decideSpec{
+	file: "config/config.go", recv: "PackageConfig", fn: "Initialize", lean: "packageInitializeEntryEffects", plain: true, loopBody: true,
+	params: "(ifaceIsNil configIsNil : Bool)", result: "List String",
+	atoms:  map[string]string{"ifaceConfig == nil": "ifaceIsNil", "ifaceConfig.Config == nil": "configIsNil"},
+	trace: map[string]string{
+		"ifaceConfig = NewInterfaceConfig()":                   "iface := new",
+		"c.Interfaces[idx] = ifaceConfig":                      "store iface",
+		"ifaceConfig.Config = &Config{}":                       "iface.config := {}",
+		"mergeConfigs(ctx, *c.Config, ifaceConfig.Config)":     "merge package config into iface.config",
+		"if err := ifaceConfig.Initialize(ctx); err != nil { return fmt.Errorf(\"initializing package config: %w\", err) }": "initialize iface",
+	},
+}
+
 // ---- mergeStringMaps ----
 
 type mapTr struct {
@@ -240,7 +254,7 @@ func init() {
 			g = fmt.Sprintf("/-- translation failed: %s -/\ndef getReplacement : Nat := (show Nat from %s)\n", strings.ReplaceAll(err.Error(), "-/", "- /"), leanStr(err.Error()))
 		}
 		b.WriteString(g + "\n")
-		for _, sp := range []*decideSpec{ifaceInitSpec, ifaceInitEntrySpec} {
+		for _, sp := range []*decideSpec{ifaceInitSpec, ifaceInitEntrySpec, pkgInitEntrySpec} {
 			d, err := translateDecide(src, sp)
 			if err != nil {
 				d = fmt.Sprintf("/-- translation failed: %s -/\ndef %s %s : %s :=\n  (show Nat from %s)\n", strings.ReplaceAll(err.Error(), "-/", "- /"), sp.lean, sp.params, sp.result, leanStr(err.Error()))
